@@ -227,10 +227,10 @@ def make_killed(only, seqs):
 
 
 def scale_fn_every(g):
-    return scale_fn(g, step=1)
+    return scale_fn(g, stride=1)
 
 
-def scale_fn(g, step=23):
+def scale_fn(g, stride=23):
     """18 / 40 recorded versions are archived, forgotten and restored; the restore is killed at points spread over its run."""
     nver = (18, 40)[g.choose("versions", 2)]
     git = "clean"
@@ -256,7 +256,7 @@ def scale_fn(g, step=23):
                 p0.cleanup()
             _L[cfg] = r0.get("lines", 0)
         L = _L[cfg]
-        k = step * (1 + g.choose("kill_block", max(1, L // step)))        # every 23rd executed line (thorough: every line)
+        k = stride * (1 + g.choose("kill_block", max(1, L // stride)))        # every 23rd executed line (thorough: every line)
         out = crash.run_in_child(step, k, only)
         D = "%d recorded versions archived, cond-out removed, restore killed at line event %d/%d (%s)" % (nver, k, L, out.get("killed_at"))
         if "child_error" in out:
